@@ -25,7 +25,7 @@ ASSUMPTIONS = ['fine bin j of coarse channel c (file order) maps to OBSFREQ + (c
 
 def required(tier):
     b = {'orient:asc': 20, 'orient:desc': 20, 'start_chan:0': 10, 'start_chan:>0': 30, 'kind:tone': 50, 'kind:chirp': 30,
-         'kind:reducers': 20, 'stem-re-recorded': 40, 'chirp:neg': 8, 'chirp:pos': 8, 'array': 10, 'reducer:from_raw': 10, 'reducer:directio-off': 3, 'reducer:directio-on': 3}
+         'kind:reducers': 20, 'stem-re-recorded': 40, 'reducer:aligned-header': 8, 'reducer:key-begins-with-END': 4, 'chirp:neg': 8, 'chirp:pos': 8, 'array': 10, 'reducer:from_raw': 10, 'reducer:directio-off': 3, 'reducer:directio-on': 3}
     return {'buckets': b, 'counters': {'tones_located': 60, 'chirp_rows_located': 60}, 'checks': 300, 'nontrivial': 60}
 
 
@@ -135,6 +135,16 @@ def run_case(c, R):
         for f in rd['files']:
             os.remove(f)
     hd = {'DIRECTIO': c['directio']}
+    if c['kind'] == 'reducers':
+        if c['_idx'] % 8 == 3:
+            hd['ENDFREQ'] = 1420.0            # a valid card whose key begins with E N D
+            R.bucket('reducer:key-begins-with-END')
+        if c['_idx'] % 8 in (3, 7):
+            # header of exactly 32k cards: already 512-aligned, no padding even with DIRECTIO
+            ncfg = 15 + len(hd) + 1
+            for k_ in range((-ncfg) % 32):
+                hd[f'FILL{k_:03d}'] = k_
+            R.bucket('reducer:aligned-header')
     rec = work_raw.do_record(stg, cfg, stem, rvb=rvb, src=src, header_dict=hd)
     try:
         _judge(stg, raw_utils, c, cfg, L, rec, stem, f_tone, drift, fine, tbin, chan_bw, sz, R)
